@@ -284,9 +284,12 @@ func prepareRender(c J) (*renderSetup, error) {
 		rs.root = root
 	}
 	if path != "" {
-		if rs.root != "" {
+		switch {
+		case rs.root != "" && jbool(c, "rawpath"):
+			rs.path = rs.root + "/" + path // exactly as spelled (./x, a//b): the path is reported as it was given
+		case rs.root != "":
 			rs.path = filepath.Join(rs.root, path)
-		} else {
+		default:
 			rs.path = path
 		}
 	}
@@ -418,6 +421,19 @@ func doRender(rs *renderSetup, entry string) result {
 				}
 			}
 			return first
+		case "CacheRender":
+			// through ParseTemplateAndCache: the same location rules as ParseTemplateLocation
+			buf := []byte(rs.src)
+			tpl, err := eng.ParseTemplateAndCache(buf, rs.path, rs.line0)
+			scribble(buf)
+			if err != nil {
+				return errResult("parse", err, rs.root)
+			}
+			out, err := tpl.Render(rs.bindings)
+			if err != nil {
+				return errResult("render", err, rs.root)
+			}
+			return result{Outcome: "ok", Out: out}
 		case "RenderString":
 			tpl, err := parseScribbled(eng, rs.src, rs.path, rs.line0)
 			if err != nil {
